@@ -111,3 +111,82 @@ Proof.
   destruct (N.eqb (f_uid x) u) eqn:E; [apply N.eqb_eq in E; exfalso; apply H; left; exact E|].
   apply IH. intros Hin. apply H. right. exact Hin.
 Qed.
+
+(* "eventually": for all sufficiently large fuel *)
+Definition evl {A} (g : nat -> res A) (r : res A) : Prop := exists F, forall f, (F <= f)%nat -> g f = r.
+
+Lemma evl_const : forall {A} (r : res A), evl (fun _ => r) r.
+Proof. intros. exists 0%nat. intros; reflexivity. Qed.
+
+Lemma evl_bind : forall {A B} (g : nat -> res A) (h : A -> nat -> res B) a r,
+  evl g (Ok a) -> evl (h a) r -> evl (fun f => bind (g f) (fun x => h x f)) r.
+Proof.
+  intros A B g h a r (F1 & H1) (F2 & H2). exists (Nat.max F1 F2). intros f Hf.
+  rewrite H1 by lia. simpl. apply H2. lia.
+Qed.
+
+Lemma evl_bind_exc : forall {A B} (g : nat -> res A) (h : A -> nat -> res B),
+  evl g Exc -> evl (fun f => bind (g f) (fun x => h x f)) Exc.
+Proof. intros A B g h (F1 & H1). exists F1. intros f Hf. rewrite H1 by lia. reflexivity. Qed.
+
+Lemma evl_ext : forall {A} (g g' : nat -> res A) r F0,
+  (forall f, (F0 <= f)%nat -> g f = g' f) -> evl g' r -> evl g r.
+Proof.
+  intros A g g' r F0 He (F & H). exists (Nat.max F0 F). intros f Hf. rewrite He by lia. apply H. lia.
+Qed.
+
+Lemma evl_S : forall {A} (g : nat -> res A) r, evl g r -> evl (fun f => g (S f)) r.
+Proof. intros A g r (F & H). exists F. intros f Hf. apply H. lia. Qed.
+
+Lemma evl_pred : forall {A} (g : nat -> res A) r, evl (fun f => g (S f)) r -> evl g r.
+Proof.
+  intros A g r (F & H). exists (S F). intros f Hf. destruct f as [|f]; [lia|]. apply H. lia.
+Qed.
+
+(* ------------------------------------------------------------------ one program *)
+
+Section ProgS.
+  Variable p : prog.
+  Variable o : opts.
+  Hypothesis Hwf : wf_prog p = true.
+  Hypothesis Hmark : o_mark o = true.
+  Hypothesis Hguard : o_guard o = true.
+
+  Let cs : configs := compile_prog p.
+
+  (* the body of a flow of the program *)
+  Definition flow_body (fl : string) : option (list stmt) :=
+    if String.eqb fl (p_id p) then Some (p_main p) else lookup fl (p_subs p).
+
+  Definition code (b : list stmt) : list elem := compile_block None b.
+
+  Definition cfg_of (fl : string) (b : list stmt) : flow_config :=
+    mk_config fl (code b) (negb (String.eqb fl (p_id p))).
+
+  Lemma wf_parts :
+    (exists i0 rest0, p_main p = SUser i0 :: rest0 /\ wf_block false rest0 = true) /\
+    Forall (fun nb => wf_block false (snd nb) = true) (p_subs p) /\
+    ~ In (p_id p) (map fst (p_subs p)).
+  Proof.
+    pose proof Hwf as W. unfold wf_prog in W.
+    apply andb_true_iff in W. destruct W as [W W4].
+    apply andb_true_iff in W. destruct W as [W W3].
+    apply andb_true_iff in W. destruct W as [W1 W2].
+    split; [|split].
+    - destruct (p_main p) as [|s rest0]; [discriminate|]. destruct s; try discriminate.
+      exists intent, rest0. split; [reflexivity|]. simpl in W2. exact W2.
+    - apply Forall_forall. intros nb Hin. rewrite forallb_forall in W3. apply W3. exact Hin.
+    - simpl in W4. apply andb_true_iff in W4. destruct W4 as [W4 _]. apply negb_true_iff in W4.
+      intros Hin. unfold string_in in W4.
+      assert (existsb (String.eqb (p_id p)) (map fst (p_subs p)) = true).
+      { apply existsb_exists. exists (p_id p). split; [exact Hin|apply String.eqb_refl]. }
+      congruence.
+  Qed.
+
+  Lemma lookup_in : forall {A} k (l : list (string * A)) v, lookup k l = Some v -> In k (map fst l).
+  Proof.
+    induction l as [|[k' v'] l IH]; intros v H; simpl in *; [discriminate|].
+    destruct (String.eqb k k') eqn:E; [left; apply String.eqb_eq in E; auto|right; eapply IH; eauto].
+  Qed.
+
+End ProgS.
